@@ -15,6 +15,14 @@ that CellParser() really constructs, beyond the class of `undefined` (gen_tables
                         nothing forces because it sits inside a list / tuple / dict: printed by
                         repr() (error or the text "Undefined"), handed back by a native template
                         (error or the object) - probed through parse_as_string, fail-closed
+* falsy_include_if_skips_evaluation
+                        a row whose include_if yields a falsy OBJECT that is not False ({@ none @},
+                        {@ 0 @}, {@ [] @}, {@ {} @}) is excluded; are its other cells instantiated
+                        first (false: SheetParser compares str(value) with "false") or not (true:
+                        it reads the value as RowParser will)?  Probed through FlowParser on ordinary
+                        rows and on insert_as_block rows, an unknown name in another cell; controls:
+                        the row really is excluded, a truthy object does not protect it, the literal
+                        FALSE does.  Mixed answers -> Refuse.
 """
 from gen_tables import Refuse, coq_str, coq_list
 
@@ -190,6 +198,76 @@ def tables_c16(out, notes):
         lg.removeHandler(h)
         lg.setLevel(old_level)
     notes.append("C16: undefined-variable probes taken through CellParser().parse_as_string with sentinel " + SENTINEL)
+    tables_falsy_include_if(out, notes)
+
+
+def tables_falsy_include_if(out, notes):
+    import logging
+
+    import tablib
+    from rpft.parsers.creation.flowparser import FlowParser
+    from rpft.rapidpro.models.containers import RapidProContainer
+
+    class Crit(Exception):
+        pass
+
+    class H(logging.Handler):
+        def emit(self, record):
+            if record.levelno >= logging.CRITICAL:
+                raise Crit(record.getMessage())
+
+    class NoBlocks:
+        """stands in for the ContentIndexParser of an insert_as_block row: reaching it means the row was included"""
+
+        def get_node_group(self, *a, **k):
+            raise Crit("probe: the insert row was included")
+
+    head = "row_id,type,from,include_if,loop_variable,message_text,template_arguments\n"
+
+    def run(rows):
+        csvtext = head + ",send_message,start,,,hi,\n" + "".join(rows) + ",send_message,,,,tail,\n"
+        try:
+            fp = FlowParser(RapidProContainer(), "probe", tablib.import_set(csvtext, format="csv"), context={"zq_defined": "v"},
+                            content_index_parser=NoBlocks())
+            flow = fp.parse().render()
+            return [a.get("text") for n in flow["nodes"] for a in n["actions"] if a["type"] == "send_msg"]
+        except (Crit, SystemExit):
+            return "stops"
+        except Exception as e:
+            return "stops:" + type(e).__name__
+
+    lg = logging.getLogger("main")
+    h = H()
+    lg.addHandler(h)
+    old_level = lg.level
+    lg.setLevel(logging.CRITICAL)
+    try:
+        falsy = ["{@ none @}", "{@ 0 @}", "{@ [] @}", "{@ {} @}"]
+        seen = set()
+        for inc in falsy:
+            # control: with every name defined the row is excluded (so it is a row "skipped through a false include_if")
+            if run([f',send_message,,"{inc}",,m {{{{ zq_defined }}}},\n']) != ["hi", "tail"]:
+                raise Refuse(f"falsy_include_if: a row with include_if {inc} is not excluded")
+            r1 = run([f',send_message,,"{inc}",,m {{{{ {SENTINEL} }}}},\n'])
+            r2 = run([f',insert_as_block,,"{inc}",,blk,{{{{ {SENTINEL} }}}}\n'])
+            for r in (r1, r2):
+                seen.add("skipped" if r == ["hi", "tail"] else "evaluated" if isinstance(r, str) and r.startswith("stops") else f"other:{r!r:.60}")
+        # controls: the literal FALSE protects the row, a truthy object does not
+        if run([f",send_message,,FALSE,,m {{{{ {SENTINEL} }}}},\n"]) != ["hi", "tail"]:
+            raise Refuse("falsy_include_if: a row under the literal FALSE is evaluated")
+        if run([f',send_message,,"{{@ 1 @}}",,m {{{{ {SENTINEL} }}}},\n']) != "stops":
+            raise Refuse("falsy_include_if: an unknown name in an INCLUDED row does not stop the run")
+        if seen == {"skipped"}:
+            val = True
+        elif seen == {"evaluated"}:
+            val = False
+        else:
+            raise Refuse(f"falsy_include_if: the probes disagree or give something unexpected: {sorted(seen)}")
+        out.append(f"Definition falsy_include_if_skips_evaluation : bool := {'true' if val else 'false'}.")
+    finally:
+        lg.removeHandler(h)
+        lg.setLevel(old_level)
+    notes.append(f"C16: rows excluded by a falsy include_if object are {'not ' if val else ''}instantiated first (probed through FlowParser)")
 
 
 GENERATORS = [tables_c16]
